@@ -1,2 +1,70 @@
-import AlgoVerif.Common
-/-! # C05 — property theorems (none yet) -/
+import AlgoVerif.Proofs.C05Binary
+/-!
+# C05 — indexed heaps keep index, key and value consistent (property theorems)
+
+`Spec.Admitted cmp eq cap m ops outs` (Spec/C05.lean): every call of the history returned normally and
+answered what the partial map `index ⇀ (key × value)` allows (`Insert` succeeds iff the index is in range
+and free, `ChangeKey/DeleteIndex/PeekIndex/ContainsIndex` succeed iff it is held and act on exactly that
+entry, `Peek/Delete` return a held index whose current key is `cmp`-extremal, `ContainsKey/ContainsValue`
+are exact whatever indices are in use, `Size`/`IsEmpty` count the held indices).  A `panic` or `diverge`
+outcome is never admitted, so the theorems also say: out-of-range and unheld indices are answered `false`,
+never by a crash, and every loop terminates within the fuel the Model gives it.
+-/
+open AlgoVerif AlgoVerif.C05 AlgoVerif.C05.Spec
+
+/-- **Indexed binary heap, full strength.**  For every capacity, every lawful comparator (a total preorder
+given by the sign of `cmp`), every value-equality function and every finite history of the twelve calls with
+arbitrary (also negative / too large / unheld / occupied) index arguments, the trace of the Model of
+`heap/indexed_binary.go` is admitted by the Spec, starting from the empty map. -/
+theorem C05_ibinary {K V : Type} (cmp : K → K → Int) (hc : LawfulCmp cmp) (eq : V → V → Bool) (cap : Nat)
+    (ops : List (Op K V)) :
+    Admitted cmp eq cap Map.empty ops (IBinary.run cmp eq cap ops) := by
+  have := admitted_of_sim (IBinary.step cmp eq) (IBinary.Inv cmp cap) IBinary.abs
+    (fun s op inv => IBinary.step_sim hc eq s op inv) ops (IBinary.new cap) (IBinary.inv_new cmp cap)
+  rw [IBinary.abs_new] at this
+  exact this
+
+/-- **Indexed binary heap, the representation invariant.**  After every history the state exists (no call
+panicked or ran out of fuel) and satisfies `IBinary.Inv`:
+`heap` and `pos` are mutually inverse on positions `1..n` (`Wf.fwd`, `Wf.bwd`), `pos[i] = -1 ↔ kvs[i] = nil`
+(`Wf.bwd`), the three slices keep their lengths `cap+1, cap, cap`, the keys reached through `kvs[heap[k]]`
+are in heap order (`Hole.Ord`), and `n` is the number of held indices. -/
+theorem C05_ibinary_invariant {K V : Type} (cmp : K → K → Int) (hc : LawfulCmp cmp) (eq : V → V → Bool)
+    (cap : Nat) (ops : List (Op K V)) :
+    ∃ h, execWith (IBinary.step cmp eq) (IBinary.new cap) ops = .ok h ∧ IBinary.Inv cmp cap h :=
+  exec_of_sim (IBinary.step cmp eq) (IBinary.Inv cmp cap)
+    (fun s op inv => by
+      obtain ⟨s', r, h1, h2, _⟩ := IBinary.step_sim hc eq s op inv
+      exact ⟨s', r, h1, h2⟩)
+    ops (IBinary.new cap) (IBinary.inv_new cmp cap)
+
+/-! ### the hypotheses are satisfiable, the statements are not vacuous -/
+
+/-- Go's `generic.NewCompareFunc[int]` -/
+def C05.cmpInt (a b : Int) : Int := if a < b then -1 else if a > b then 1 else 0
+/-- Go's `generic.NewReverseCompareFunc[int]` -/
+def C05.cmpIntRev (a b : Int) : Int := if a > b then -1 else if a < b then 1 else 0
+
+example : LawfulCmp C05.cmpInt :=
+  ⟨fun a b h => by unfold C05.cmpInt at *; split at h <;> split <;> (try split) <;> omega,
+   fun a b c h1 h2 => by
+    unfold C05.cmpInt at *
+    split at h1 <;> split at h2 <;> split <;> (try split) <;> (try split at h1) <;> (try split at h2) <;> omega⟩
+
+example : LawfulCmp C05.cmpIntRev :=
+  ⟨fun a b h => by unfold C05.cmpIntRev at *; split at h <;> split <;> (try split) <;> omega,
+   fun a b c h1 h2 => by
+    unfold C05.cmpIntRev at *
+    split at h1 <;> split at h2 <;> split <;> (try split) <;> (try split at h1) <;> (try split at h2) <;> omega⟩
+
+/-- a history with an out-of-range insert (D5), a sparse index set with `ContainsKey` (D4), a key increase, a
+`DeleteIndex` of an inner entry and deletes: what the Model answers (and `C05_ibinary` says is admitted) -/
+example :
+    IBinary.run C05.cmpInt (fun (a b : Nat) => a == b) 6
+      [.insert 6 1 0, .insert (-1) 1 0, .insert 5 42 7, .containsKey 42, .insert 2 10 8, .insert 0 50 9,
+       .insert 5 1 1, .changeKey 5 60, .peek, .deleteIndex 0, .changeKey 3 1, .delete, .delete, .delete, .size]
+    = [.ok (.bool false), .ok (.bool false), .ok (.bool true), .ok (.bool true), .ok (.bool true),
+       .ok (.bool true), .ok (.bool false), .ok (.bool true), .ok (.ikv (some (2, 10, 8))),
+       .ok (.kv (some (50, 9))), .ok (.bool false), .ok (.ikv (some (2, 10, 8))),
+       .ok (.ikv (some (5, 60, 7))), .ok (.ikv none), .ok (.int 0)] := by
+  decide
